@@ -1,5 +1,7 @@
 import KeepVerif.DriverLib
 import KeepVerif.Model.C35
+import KeepVerif.Model.C35Loop
+import KeepVerif.Gen.C35
 open KeepVerif KeepVerif.C35
 
 def canonNat? (s : String) (hi : Nat) : Option Nat :=
@@ -70,7 +72,11 @@ def showOutcome : Outcome → String
   | .mismatch => "mismatch"
   | .success sig eb => s!"ok.{if sig == 0 then "nil" else toString sig}.{eb}"
 
+def loopConsts : C35Loop.Consts :=
+  ⟨Gen.C35.loopDelayBlocks, Gen.C35.loopActiveBlocks, Gen.C35.loopProtocolBlocks, Gen.C35.loopCoolDownBlocks⟩
+
 def model (line : String) : String :=
+  if C35Loop.isLoopOp line then (if (C35Loop.parseCase line).isSome then "SKIP" else "bad-op") else
   match parseCases line with
   | none => "bad-op"
   | some cs =>
@@ -110,6 +116,7 @@ def monitorOne (c : Case) (obs : String) : String :=
   | _ => "FAIL unparsable-observation"
 
 def monitor (op obs : String) : String :=
+  if C35Loop.isLoopOp op then C35Loop.monitor loopConsts op obs else
   match parseCases op with
   | none => if obs == "bad-op" then "ok" else "FAIL bad-op-accepted"
   | some cs =>
